@@ -26,7 +26,7 @@ SUITE = ["-m", "pytest", "-q", "-p", "no:cacheprovider", "--timeout=900", "--con
 def make_copy():
     d = tempfile.mkdtemp(prefix="pgv-mut-")
     dst = os.path.join(d, "repo")
-    shutil.copytree("/repo", dst, ignore=shutil.ignore_patterns(".git", "__pycache__", "*.pyc", "*.so",
+    shutil.copytree("/repo", dst, symlinks=True, ignore=shutil.ignore_patterns(".git", "__pycache__", "*.pyc", "*.so",
                                                                 "__pyccel__", "pygyro.egg-info"))
     return d, dst
 
@@ -37,10 +37,8 @@ def run_one(m, suite=False, ncpu=4, seed="1"):
     res = {"id": m["id"], "property": m["property"], "expect": m.get("expect", "caught")}
     try:
         if "patch" in m:
-            r = subprocess.run(["git", "apply", "--unsafe-paths", "--directory", repo, m["patch"]],
-                               capture_output=True, text=True, cwd=repo)
+            r = subprocess.run(["git", "apply", m["patch"]], capture_output=True, text=True, cwd=repo)
             if r.returncode != 0:
-                # not a git repo: use patch(1)
                 r = subprocess.run(["patch", "-p1", "-i", m["patch"]], capture_output=True, text=True, cwd=repo)
             if r.returncode != 0:
                 res["error"] = "patch does not apply: " + (r.stderr or r.stdout)[-300:]
